@@ -170,6 +170,19 @@ TraceNext ==
             /\ (IF ev.same THEN TRUE
                 ELSE Verdict([l |-> l, ev |-> "spelling", kind |-> "MISMATCH", dev |-> "", why |-> ev.lists]))
             /\ UNCHANGED st
+       \* a macro library, a use site and the reference expansion computed by Macro!Expand (C13):
+       \* an expansion error must be refused; otherwise the macro program and the hand-expanded program are
+       \* accepted or refused together and, when accepted, emit the same instruction list
+       [] ev.ev = "macro" ->
+            /\ (IF (ev.err # "" /\ ~ev.macro_ok) \/ (ev.err = "" /\ ev.macro_ok = ev.ref_ok /\ (ev.macro_ok => ev.same)) THEN TRUE
+                ELSE Verdict([l |-> l, ev |-> "macro", kind |-> "MISMATCH", dev |-> "",
+                              why |-> <<ev.err, ev.macro_ok, ev.ref_ok, ev.same, ev.macro_code, ev.ref_code, ev.diag>>]))
+            /\ UNCHANGED st
+       \* a chain of nested macro uses must expand (no abort, no hang) to what the innermost body says
+       [] ev.ev = "chain" ->
+            /\ (IF ev.status = 0 /\ ~ev.timeout /\ ev.ok /\ ev.same THEN TRUE
+                ELSE Verdict([l |-> l, ev |-> "chain", kind |-> "MISMATCH", dev |-> "", why |-> <<ev.depth, ev.status, ev.timeout, ev.err>>]))
+            /\ UNCHANGED st
        \* a REP line still answered REPEAT after CX + 3 invocations
        [] ev.ev = "nonterminating" ->
             /\ Verdict([l |-> l, ev |-> "nonterminating", kind |-> "MISMATCH", dev |-> "", why |-> ev.invocations])
